@@ -351,15 +351,10 @@ theorem mountOp_same (w : World) (p sub seg : Nat) (inh : Bool) (extra : List Hi
     | none => exact SameRest.refl w
     | some sr =>
       simp only []
-      have h1 := foldl_same sr.pending
+      exact foldl_same sr.objs
         (fun w rt => w.addRouteOn p { ver := none, path := seg :: rt.path,
                                       hs := ((if inh then pr.mw else []) ++ sr.mw ++ extra) ++ rt.hs })
         (fun w rt => addRouteOn_same w p _) w
-      by_cases hc : (sr.hasInfo && sr.pending.isEmpty) = true
-      · simp only [hc, if_true]
-        exact h1.trans (foldl_same _ _ (fun w rt => addRouteOn_same w p _) _)
-      · simp only [hc]
-        exact h1
 
 def groupM : MClass where
   C := groupC
